@@ -458,3 +458,93 @@ def exact_probability(G, table, values):
             w *= (1 - sum(ps)) if c == 0 else ps[c - 1]
         tot += w
     return tot
+
+
+def full_graph_has_negative_cycle(prog, limit=50000):
+    """Cycle through negation in the FULL ground dependency graph (every ground instance of every
+    clause over the constants of the program - not goal directed, not restricted to derivable
+    atoms), as the property states it.  Falls back to the (coarser, still conservative)
+    predicate-level graph when the grounding would be too large."""
+    consts = set()
+    clauses = []
+    for s in prog:
+        if s[0] == "fact":
+            clauses.append(([s[1]], []))
+        elif s[0] == "rule":
+            clauses.append(([s[1]], list(s[2])))
+        elif s[0] == "ad":
+            clauses.append(([a for _, a in s[1]], list(s[2])))
+    for heads, body in clauses:
+        for a in heads + [l[0] for l in body]:
+            for x in a[1]:
+                if not is_var(x):
+                    consts.add(x)
+    consts = sorted(consts) or ["c0"]
+    edges = {}  # atom -> set of (atom, neg)
+    total = 0
+    for heads, body in clauses:
+        vs = sorted(set(x for a in heads + [l[0] for l in body] for x in a[1] if is_var(x) and x != "_"))
+        total += len(consts) ** len(vs)
+    pred_level = total > limit
+    for heads, body in clauses:
+        vs = sorted(set(x for a in heads + [l[0] for l in body] for x in a[1] if is_var(x) and x != "_"))
+        if pred_level:
+            for h in heads:
+                for b, neg in body:
+                    edges.setdefault((h[0], len(h[1])), set()).add(((b[0], len(b[1])), neg))
+            continue
+        for combo in itertools.product(consts, repeat=len(vs)):
+            th = dict(zip(vs, combo))
+            for h in heads:
+                gh = _subst(h, th)
+                for b, neg in body:
+                    edges.setdefault(gh, set()).add((_subst(b, th), neg))
+    # SCCs (iterative Tarjan)
+    nodes = set(edges)
+    for v in list(edges):
+        for w, _ in edges[v]:
+            nodes.add(w)
+    index, low, onst, stack, comps = {}, {}, set(), [], []
+    cnt = [0]
+    for root in sorted(nodes):
+        if root in index:
+            continue
+        work = [(root, iter(sorted(w for w, _ in edges.get(root, ()))))]
+        index[root] = low[root] = cnt[0]
+        cnt[0] += 1
+        stack.append(root)
+        onst.add(root)
+        while work:
+            v, it = work[-1]
+            adv = False
+            for w in it:
+                if w not in index:
+                    index[w] = low[w] = cnt[0]
+                    cnt[0] += 1
+                    stack.append(w)
+                    onst.add(w)
+                    work.append((w, iter(sorted(x for x, _ in edges.get(w, ())))))
+                    adv = True
+                    break
+                elif w in onst:
+                    low[v] = min(low[v], index[w])
+            if adv:
+                continue
+            work.pop()
+            if work:
+                low[work[-1][0]] = min(low[work[-1][0]], low[v])
+            if low[v] == index[v]:
+                comp = set()
+                while True:
+                    w = stack.pop()
+                    onst.discard(w)
+                    comp.add(w)
+                    if w == v:
+                        break
+                comps.append(comp)
+    for comp in comps:
+        for v in comp:
+            for w, neg in edges.get(v, ()):
+                if neg and w in comp:
+                    return True
+    return False
